@@ -253,7 +253,9 @@ class FakeSocket:
                 exc.value = 'EXECABORT Transaction discarded because of: ' + exc.value[4:]
                 self._transaction = None
                 self._transaction_failed = False
-                self._clear_watches()
+                # The watch tables are shared between connections
+                with self._server.lock:
+                    self._clear_watches()
             result = exc
         result = self._decode_result(result)
         if not isinstance(result, NoResponse):
